@@ -55,15 +55,18 @@ Definition print (t : template) : str := flat_map print_node t.
 (* ------------------------------------------------------------------ *)
 (* well-formedness = "generated from the documented grammar"            *)
 Definition nobrace (s : str) : bool := forallb (fun c => negb (c =? LB) && negb (c =? RB)) s.
+(* free of the two private-use code points the renderer reserves for shielding braces *)
+Definition nosent (s : str) : bool := forallb (fun c => negb (c =? SH_OPEN) && negb (c =? SH_CLOSE)) s.
+Definition clean (s : str) : bool := nobrace s && nosent s.
 Definition word (s : str) : bool := nonempty s && forallb is_word s.
 Definition spaces (s : str) : bool := nonempty s && forallb is_space s.
 
 Definition leaf_wf (l : leaf) : bool :=
   match l with
-  | LText s => nobrace s
+  | LText s => clean s
   | LVar x | LOpt x | LInc x => word x
   | LDot => true
-  | LPipe x w => word x && nonempty w && nobrace w && (negb (is_filter w) || modelled_filter w)
+  | LPipe x w => word x && nonempty w && clean w && (negb (is_filter w) || modelled_filter w)
   end.
 Definition node_wf (n : node) : bool :=
   match n with
@@ -74,17 +77,18 @@ Definition node_wf (n : node) : bool :=
   end.
 Definition well_formed (t : template) : bool := forallb node_wf t.
 
-(* delimiter-free context: nothing that can be substituted contains { or }; the keys of a
-   dict item are identifiers (or "."), as the loop-variable syntax {{key}} presumes *)
+(* admissible context: no substituted string contains the sentinels U+E000 / U+E001 (braces and
+   every other code point are allowed); the keys of a dict item are identifiers (or "."), as
+   the loop-variable syntax {{key}} presumes *)
 Definition key_ok (k : str) : bool := word k || str_eqb k K_DOT.
-Definition item_free (i n : nat) (it : item) : bool :=
-  forallb (fun kv => nobrace (snd kv) && key_ok (fst kv)) (loop_context i n it).
-Fixpoint items_free (n i : nat) (l : list item) : bool :=
-  match l with [] => true | it :: r => item_free i n it && items_free n (S i) r end.
-Definition value_free (v : value) : bool :=
-  nobrace (str_value v) &&
-  match v with VList l => items_free (length l) O l | _ => true end.
-Definition delimiter_free (c : ctx) : bool := forallb (fun kv => value_free (snd kv)) c.
+Definition item_ok (i n : nat) (it : item) : bool :=
+  forallb (fun kv => nosent (snd kv) && key_ok (fst kv)) (loop_context i n it).
+Fixpoint items_ok (n i : nat) (l : list item) : bool :=
+  match l with [] => true | it :: r => item_ok i n it && items_ok n (S i) r end.
+Definition value_ok (v : value) : bool :=
+  nosent (str_value v) &&
+  match v with VList l => items_ok (length l) O l | _ => true end.
+Definition ctx_ok (c : ctx) : bool := forallb (fun kv => value_ok (snd kv)) c.
 
 (* ------------------------------------------------------------------ *)
 Inductive sres := SOk (text : str) (missing : list str) | SErr (e : error).
